@@ -1,5 +1,6 @@
 import PhononModel.Model.ThermalDisp
 import PhononModel.Lemmas.CxPair
+import PhononModel.Lemmas.RandomDisp
 import Mathlib.Algebra.BigOperators.Fin
 import Mathlib.Algebra.BigOperators.Field
 import Mathlib.Algebra.BigOperators.Group.Finset.Sigma
@@ -303,9 +304,7 @@ theorem a2_mul_a2inv [LinearOrder K] (cutoff f sraw : K) (h : cutoff < f → sra
 
 /-- **`uu_inv_is_inverse_partial`**: at every commensurate point the matrix handed to d2f for `uu_inv`
 is the inverse of the one handed over for `uu` on the span of the unmasked modes:
-`(E σ² E†)(E σ⁻² E†) = E·1_{unmasked}·E†` (the spectral projector).  The supercell statement
-`uu·uu_inv·uu = uu` needs in addition the block-diagonalisation of the supercell matrices by the commensurate points
-(C06) and is covered by the oracle. -/
+`(E σ² E†)(E σ⁻² E†) = E·1_{unmasked}·E†` (the spectral projector).  The supercell statement is `uu_inv_is_inverse` below. -/
 theorem uu_inv_is_inverse_partial [LinearOrder K] (E : Fin nb → Fin nb → Cx K)
     (horth : ∀ ν ν', (∑ m, Cx.conj (E m ν) * E m ν') = if ν = ν' then 1 else 0)
     (cutoff : K) (f sraw : Fin nb → K) (hs : ∀ ν, cutoff < f ν → sraw ν ≠ 0) (r c : Fin nb) :
@@ -317,23 +316,7 @@ theorem uu_inv_is_inverse_partial [LinearOrder K] (E : Fin nb → Fin nb → Cx 
   funext ν
   exact a2_mul_a2inv cutoff (f ν) (sraw ν) (hs ν)
 
-/-- the full statement for the supercell matrices (not proved; oracle: `U·V·U = U`, `V·U·V = V`, `tr(U·V)` = number of unmasked modes):
-for any dense matrices `U, V` over the supercell whose rows of primitive atoms are `uuRow`/`uuInvRow`, which are invariant
-under the supercell's lattice translations `tr`, `U·V·U = U`. -/
-def FullStatement_uu_inv_is_inverse : Prop :=
-  ∀ (np ns nii nij nt : Nat) (J : D2FIn np ns nii nij ℚ) (p2s : Fin np → Fin ns) (tr : Fin nt → Fin ns ≃ Fin ns)
-    (cutoff : ℚ) (fii : Fin nii → Fin (np * 3) → ℚ) (fij : Fin nij → Fin (np * 3) → ℚ)
-    (sii : Fin nii → Fin (np * 3) → ℚ) (sij : Fin nij → Fin (np * 3) → ℚ)
-    (U V : Fin ns → Fin 3 → Fin ns → Fin 3 → ℚ),
-    (∀ q ν ν', (∑ m, Cx.conj (eC (J.vd q) (J.eii q) m ν) * eC (J.vd q) (J.eii q) m ν') = if ν = ν' then 1 else 0) →
-    (∀ q ν ν', (∑ m, Cx.conj (J.eij q m ν) * J.eij q m ν') = if ν = ν' then 1 else 0) →
-    (∀ i j l m, U (p2s i) l j m = uuRow J (fun q ν => maskSigma cutoff (fii q ν) (sii q ν)) (fun q ν => maskSigma cutoff (fij q ν) (sij q ν)) i j l m) →
-    (∀ i j l m, V (p2s i) l j m = uuInvRow J cutoff fii fij (fun q ν => maskSigma cutoff (fii q ν) (sii q ν)) (fun q ν => maskSigma cutoff (fij q ν) (sij q ν)) i j l m) →
-    (∀ t i j l m, U (tr t i) l (tr t j) m = U i l j m ∧ V (tr t i) l (tr t j) m = V i l j m) →
-    (∀ i, ∃ t ip, tr t (p2s ip) = i) →
-    ∀ i l j m, (∑ k, ∑ x, ∑ k', ∑ y, U i l k x * V k x k' y * U k' y j m) = U i l j m
-
-/-! ### `run_d2f` on unmodified eigen-solutions -/
+/-! ### `run_d2f` on unmodified eigen-solutions: rebuilt matrices -/
 
 /-- conjugated eigenvectors rebuild the conjugated matrix (the `−q` copies of `_collect_eigensolutions`) -/
 theorem dmOf_conj (E : Fin nb → Fin nb → Cx K) (v : Fin nb → K) (r c : Fin nb) :
@@ -476,7 +459,375 @@ theorem d2f_identity (J : D2FIn np ns nii nij K) (lii : Fin nii → Fin (np * 3)
 
 end correlation
 
+section supercell
+variable {K : Type} [Field K] {np ns nii nij : Nat}
+
+/-- index of a commensurate point: self-conjugate, pair representative, partner -/
+abbrev Pt (nii nij : Nat) := Fin nii ⊕ (Fin nij ⊕ Fin nij)
+
+def ExOf (I : RDIn np ns nii nij K) : Pt nii nij → Fin (np * 3) → Fin (np * 3) → Cx K
+  | .inl q, r, ν => Cx.ofRe (I.eii q r ν)
+  | .inr (.inl q), r, ν => I.eij q r ν
+  | .inr (.inr q), r, ν => Cx.conj (I.eij q r ν)
+
+def phOf (I : RDIn np ns nii nij K) : Pt nii nij → Fin ns → Cx K
+  | .inl q, κ => Cx.ofRe (I.cosii q κ)
+  | .inr (.inl q), κ => I.phij q κ
+  | .inr (.inr q), κ => Cx.conj (I.phij q κ)
+
+theorem WcOf_eq (I : RDIn np ns nii nij K) (x : Pt nii nij) (ν : Fin (np * 3)) (κ : Fin ns) (a : Fin 3) :
+    WcOf I x ν κ a = ExOf I x (row (I.s2pp κ) a) ν * phOf I x κ := by
+  rcases x with q | q | q
+  · simp only [WcOf, ExOf, phOf, Cx.ofRe_mul]
+  · rfl
+  · simp only [WcOf, ExOf, phOf, wij, Cx.conj_mul]
+
+/-- certificate on the eigen-solutions and the phase tables: orthonormal eigenvectors at every sampled point, and
+character orthogonality of the phase factors over each sublattice of the supercell (`N` cells) for all commensurate points -/
+structure ModesOrthonormal (I : RDIn np ns nii nij K) : Prop where
+  eii : ∀ q ν ν', (∑ r, I.eii q r ν * I.eii q r ν') = if ν = ν' then 1 else 0
+  eij : ∀ q ν ν', (∑ r, Cx.conj (I.eij q r ν) * I.eij q r ν') = if ν = ν' then 1 else 0
+  char : ∀ p x y, (∑ κ, if I.s2pp κ = p then Cx.conj (phOf I x κ) * phOf I y κ else 0)
+      = if x = y then (⟨((nii + 2 * nij : Nat) : K), 0⟩ : Cx K) else 0
+
+theorem ExOf_orth (I : RDIn np ns nii nij K) (h : ModesOrthonormal I) (x : Pt nii nij) (ν ν' : Fin (np * 3)) :
+    (∑ r, Cx.conj (ExOf I x r ν) * ExOf I x r ν') = if ν = ν' then 1 else 0 := by
+  rcases x with q | q | q
+  · simp only [ExOf]
+    have := h.eii q ν ν'
+    have e : (∑ r, Cx.conj (Cx.ofRe (I.eii q r ν)) * Cx.ofRe (I.eii q r ν')) = Cx.ofRe (∑ r, I.eii q r ν * I.eii q r ν') := by
+      rw [Cx.ofRe_sum]; apply Finset.sum_congr rfl; intro r _; apply Cx.ext' <;> simp
+    rw [e, this]; split <;> rfl
+  · exact h.eij q ν ν'
+  · simp only [ExOf, Cx.conj_conj]
+    have := congrArg Cx.conj (h.eij q ν ν')
+    rw [Cx.conj_sum] at this
+    have e : (∑ r, I.eij q r ν * Cx.conj (I.eij q r ν')) = ∑ r, Cx.conj (Cx.conj (I.eij q r ν) * I.eij q r ν') := by
+      apply Finset.sum_congr rfl; intro r _; rw [Cx.conj_mul, Cx.conj_conj]
+    rw [e, this]
+    split
+    · apply Cx.ext' <;> simp
+    · exact Cx.conj_zero
+
+/-- **orthogonality of the displacement patterns of all commensurate points over the supercell** -/
+theorem W_orth (I : RDIn np ns nii nij K) (h : ModesOrthonormal I) (x y : Pt nii nij) (ν ν' : Fin (np * 3)) :
+    (∑ κ, ∑ a, Cx.conj (WcOf I x ν κ a) * WcOf I y ν' κ a)
+      = if x = y ∧ ν = ν' then (⟨((nii + 2 * nij : Nat) : K), 0⟩ : Cx K) else 0 := by
+  simp only [WcOf_eq]
+  let F : Fin np → Fin ns → Cx K := fun p κ =>
+    (∑ a, Cx.conj (ExOf I x (row p a) ν) * ExOf I y (row p a) ν') * (Cx.conj (phOf I x κ) * phOf I y κ)
+  have h1 : (∑ κ, ∑ a, Cx.conj (ExOf I x (row (I.s2pp κ) a) ν * phOf I x κ) * (ExOf I y (row (I.s2pp κ) a) ν' * phOf I y κ))
+      = ∑ κ, F (I.s2pp κ) κ := by
+    apply Finset.sum_congr rfl; intro κ _
+    simp only [F, Finset.sum_mul]
+    apply Finset.sum_congr rfl; intro a _
+    rw [Cx.conj_mul]; ring
+  rw [h1, sum_by_sublattice I.s2pp F]
+  simp only [F]
+  have h2 : ∀ p, (∑ κ, if I.s2pp κ = p then (∑ a, Cx.conj (ExOf I x (row p a) ν) * ExOf I y (row p a) ν') * (Cx.conj (phOf I x κ) * phOf I y κ) else 0)
+      = (∑ a, Cx.conj (ExOf I x (row p a) ν) * ExOf I y (row p a) ν') * (if x = y then (⟨((nii + 2 * nij : Nat) : K), 0⟩ : Cx K) else 0) := by
+    intro p
+    rw [← h.char p x y, Finset.mul_sum]
+    apply Finset.sum_congr rfl; intro κ _
+    split <;> simp
+  simp only [h2]
+  by_cases hxy : x = y
+  · subst hxy
+    simp only [if_true, true_and, ← Finset.sum_mul]
+    rw [sum_row (fun r => Cx.conj (ExOf I x r ν) * ExOf I x r ν'), ExOf_orth I h]
+    split <;> simp
+  · simp [hxy]
+
+/-- the un-normalised spectral sum over the real normal modes of the supercell with weights `(wii, wij)` -/
+def modeSum (I : RDIn np ns nii nij K) (gii : Fin nii → Fin (np * 3) → K) (gij : Fin nij → Fin (np * 3) → K)
+    (κ : Fin ns) (a : Fin 3) (κ' : Fin ns) (b : Fin 3) : K :=
+  (∑ q, ∑ ν, gii q ν * (I.eii q (row (I.s2pp κ) a) ν * I.cosii q κ) * (I.eii q (row (I.s2pp κ') b) ν * I.cosii q κ'))
+  + (∑ q, ∑ ν, gij q ν * (wij I q ν κ a * Cx.conj (wij I q ν κ' b) + Cx.conj (wij I q ν κ a) * wij I q ν κ' b).re)
+
+/-- weights on all commensurate points: a conjugate pair shares its weight -/
+def wOf (wii : Fin nii → Fin (np * 3) → K) (wij : Fin nij → Fin (np * 3) → K) : Pt nii nij × Fin (np * 3) → K
+  | (.inl q, ν) => wii q ν
+  | (.inr (.inl q), ν) => wij q ν
+  | (.inr (.inr q), ν) => wij q ν
+
+/-- the patterns as a family of vectors over (atom, direction) -/
+def psi (I : RDIn np ns nii nij K) : Pt nii nij × Fin (np * 3) → Fin ns × Fin 3 → Cx K :=
+  fun c r => WcOf I c.1 c.2 r.1 r.2
+
+theorem psi_orth (I : RDIn np ns nii nij K) (h : ModesOrthonormal I) (c c' : Pt nii nij × Fin (np * 3)) :
+    (∑ r, Cx.conj (psi I c r) * psi I c' r) = if c = c' then (⟨((nii + 2 * nij : Nat) : K), 0⟩ : Cx K) else 0 := by
+  rw [Fintype.sum_prod_type]
+  simp only [psi]
+  rw [W_orth I h]
+  have : (c = c') ↔ (c.1 = c'.1 ∧ c.2 = c'.2) := Prod.ext_iff
+  simp only [this]
+
+theorem specM_modes (I : RDIn np ns nii nij K) (N : K) (gii : Fin nii → Fin (np * 3) → K) (gij : Fin nij → Fin (np * 3) → K)
+    (κ : Fin ns) (a : Fin 3) (κ' : Fin ns) (b : Fin 3) :
+    specM (psi I) N (wOf gii gij) (κ, a) (κ', b) = Cx.ofRe (modeSum I gii gij κ a κ' b / N) := by
+  unfold specM modeSum
+  rw [Fintype.sum_prod_type, Fintype.sum_sum_type, Fintype.sum_sum_type]
+  simp only [psi, wOf, WcOf]
+  rw [add_div, Cx.ofRe_add, Finset.sum_div, Finset.sum_div, Cx.ofRe_sum, Cx.ofRe_sum, ← Finset.sum_add_distrib]
+  congr 1
+  · apply Finset.sum_congr rfl; intro q _
+    rw [Finset.sum_div, Cx.ofRe_sum]
+    apply Finset.sum_congr rfl; intro ν _
+    apply Cx.ext' <;> simp <;> ring
+  · apply Finset.sum_congr rfl; intro q _
+    rw [Finset.sum_div, Cx.ofRe_sum, ← Finset.sum_add_distrib]
+    apply Finset.sum_congr rfl; intro ν _
+    apply Cx.ext' <;> simp <;> ring
+
+/-- the sampler's covariance in spectral form -/
+theorem cov_spectral (I : RDIn np ns nii nij K) (hr2 : I.r2 * I.r2 = 2) (κ κ' : Fin ns) (a b : Fin 3) :
+    cov I κ a κ' b = modeSum I (fun q ν => I.sigii q ν * I.sigii q ν) (fun q ν => I.sigij q ν * I.sigij q ν) κ a κ' b
+      / (I.rm κ * I.rm κ') := by
+  unfold cov modeSum
+  simp only [sumFin_eq]
+  rw [add_div, Finset.sum_div, Finset.sum_div]
+  congr 1
+  · apply Finset.sum_congr rfl; intro q _
+    rw [Finset.sum_div]
+    apply Finset.sum_congr rfl; intro ν _
+    unfold Aii; ring
+  · apply Finset.sum_congr rfl; intro q _
+    rw [Finset.sum_div]
+    apply Finset.sum_congr rfl; intro ν _
+    rw [pair_variance I hr2]
+
+theorem covInv_spectral (I : RDIn np ns nii nij K) (gii : Fin nii → Fin (np * 3) → K) (gij : Fin nij → Fin (np * 3) → K)
+    (κ κ' : Fin ns) (a b : Fin 3) :
+    covInv I gii gij κ a κ' b = modeSum I gii gij κ a κ' b * (I.rm κ * I.rm κ')
+      / (((nii + 2 * nij : Nat) : K) * ((nii + 2 * nij : Nat) : K)) := by
+  unfold covInv modeSum
+  simp only [sumFin_eq]
+
+theorem wOf_mul (u v : Fin nii → Fin (np * 3) → K) (u' v' : Fin nij → Fin (np * 3) → K) :
+    (fun c => wOf u u' c * wOf v v' c) = wOf (fun q ν => u q ν * v q ν) (fun q ν => u' q ν * v' q ν) := by
+  funext c
+  rcases c with ⟨q | q | q, ν⟩ <;> rfl
+
+/-- product of three spectral sums over the supercell -/
+theorem modeSum_triple (I : RDIn np ns nii nij K) (h : ModesOrthonormal I) (hN : ((nii + 2 * nij : Nat) : K) ≠ 0)
+    (u v w : Fin nii → Fin (np * 3) → K) (u' v' w' : Fin nij → Fin (np * 3) → K) (κ κ' : Fin ns) (a b : Fin 3) :
+    (∑ r1 : Fin ns × Fin 3, ∑ r2 : Fin ns × Fin 3,
+        modeSum I u u' κ a r1.1 r1.2 * modeSum I v v' r1.1 r1.2 r2.1 r2.2 * modeSum I w w' r2.1 r2.2 κ' b)
+      = ((nii + 2 * nij : Nat) : K) * ((nii + 2 * nij : Nat) : K)
+        * modeSum I (fun q ν => u q ν * v q ν * w q ν) (fun q ν => u' q ν * v' q ν * w' q ν) κ a κ' b := by
+  set N : K := ((nii + 2 * nij : Nat) : K) with hNdef
+  have ho := psi_orth I h
+  have e1 : ∀ r1 : Fin ns × Fin 3, (∑ r2 : Fin ns × Fin 3, specM (psi I) N (wOf v v') r1 r2 * specM (psi I) N (wOf w w') r2 (κ', b))
+      = specM (psi I) N (wOf (fun q ν => v q ν * w q ν) (fun q ν => v' q ν * w' q ν)) r1 (κ', b) := by
+    intro r1; rw [specM_mul (psi I) N hN ho, wOf_mul]
+  have e2 : (∑ r1 : Fin ns × Fin 3, specM (psi I) N (wOf u u') (κ, a) r1
+        * specM (psi I) N (wOf (fun q ν => v q ν * w q ν) (fun q ν => v' q ν * w' q ν)) r1 (κ', b))
+      = specM (psi I) N (wOf (fun q ν => u q ν * (v q ν * w q ν)) (fun q ν => u' q ν * (v' q ν * w' q ν))) (κ, a) (κ', b) := by
+    rw [specM_mul (psi I) N hN ho, wOf_mul]
+  have e3 : (∑ r1 : Fin ns × Fin 3, ∑ r2 : Fin ns × Fin 3,
+        specM (psi I) N (wOf u u') (κ, a) r1 * (specM (psi I) N (wOf v v') r1 r2 * specM (psi I) N (wOf w w') r2 (κ', b)))
+      = specM (psi I) N (wOf (fun q ν => u q ν * (v q ν * w q ν)) (fun q ν => u' q ν * (v' q ν * w' q ν))) (κ, a) (κ', b) := by
+    rw [← e2]
+    apply Finset.sum_congr rfl; intro r1 _
+    rw [← Finset.mul_sum, e1]
+  have e4 : ∀ r1 r2 : Fin ns × Fin 3, specM (psi I) N (wOf u u') (κ, a) r1 * (specM (psi I) N (wOf v v') r1 r2 * specM (psi I) N (wOf w w') r2 (κ', b))
+      = Cx.ofRe (modeSum I u u' κ a r1.1 r1.2 * modeSum I v v' r1.1 r1.2 r2.1 r2.2 * modeSum I w w' r2.1 r2.2 κ' b / (N * N * N)) := by
+    intro r1 r2
+    rw [show r1 = (r1.1, r1.2) from rfl, show r2 = (r2.1, r2.2) from rfl, specM_modes, specM_modes, specM_modes,
+      ← Cx.ofRe_mul, ← Cx.ofRe_mul]
+    congr 1; field_simp
+  simp only [e4] at e3
+  rw [specM_modes] at e3
+  simp only [← Cx.ofRe_sum] at e3
+  have e5 := Cx.ofRe_inj e3
+  simp only [← Finset.sum_div] at e5
+  have hm : ∀ q ν, u q ν * (v q ν * w q ν) = u q ν * v q ν * w q ν := fun q ν => (mul_assoc _ _ _).symm
+  have hm' : ∀ q ν, u' q ν * (v' q ν * w' q ν) = u' q ν * v' q ν * w' q ν := fun q ν => (mul_assoc _ _ _).symm
+  simp only [hm, hm'] at e5
+  field_simp at e5
+  linear_combination e5
+
+/-- mask algebra: with `a = maskSigma` and `g = a2inv`, `a²·g·a² = a²` and `g·a²·g = g` -/
+theorem mask_algebra [LinearOrder K] (cutoff f sraw : K) (h : cutoff < f → sraw ≠ 0) :
+    let a := maskSigma cutoff f sraw
+    let g := a2inv cutoff f a
+    a * a * g * (a * a) = a * a ∧ g * (a * a) * g = g := by
+  intro a g
+  simp only [a, g]
+  unfold maskSigma a2inv
+  by_cases hc : cutoff < f
+  · simp only [if_pos hc]; have := h hc; constructor <;> field_simp
+  · simp only [if_neg hc]; constructor <;> ring
+
+/-- **`uu_inv_is_inverse`** (supercell level): with `U = cov` (= `uu`) and `V = covInv` (= `uu_inv`), `U·V·U = U`. -/
+theorem uu_inv_is_inverse (I : RDIn np ns nii nij K) (hr2 : I.r2 * I.r2 = 2) (h : ModesOrthonormal I)
+    (hN : ((nii + 2 * nij : Nat) : K) ≠ 0) (hrm : ∀ κ, I.rm κ ≠ 0)
+    (gii : Fin nii → Fin (np * 3) → K) (gij : Fin nij → Fin (np * 3) → K)
+    (hgii : ∀ q ν, I.sigii q ν * I.sigii q ν * gii q ν * (I.sigii q ν * I.sigii q ν) = I.sigii q ν * I.sigii q ν)
+    (hgij : ∀ q ν, I.sigij q ν * I.sigij q ν * gij q ν * (I.sigij q ν * I.sigij q ν) = I.sigij q ν * I.sigij q ν)
+    (κ κ' : Fin ns) (a b : Fin 3) :
+    (∑ r1 : Fin ns × Fin 3, ∑ r2 : Fin ns × Fin 3,
+        cov I κ a r1.1 r1.2 * covInv I gii gij r1.1 r1.2 r2.1 r2.2 * cov I r2.1 r2.2 κ' b) = cov I κ a κ' b := by
+  have ht := modeSum_triple I h hN (fun q ν => I.sigii q ν * I.sigii q ν) gii (fun q ν => I.sigii q ν * I.sigii q ν)
+    (fun q ν => I.sigij q ν * I.sigij q ν) gij (fun q ν => I.sigij q ν * I.sigij q ν) κ κ' a b
+  simp only [hgii, hgij] at ht
+  simp only [cov_spectral I hr2, covInv_spectral]
+  have e : ∀ r1 r2 : Fin ns × Fin 3,
+      modeSum I (fun q ν => I.sigii q ν * I.sigii q ν) (fun q ν => I.sigij q ν * I.sigij q ν) κ a r1.1 r1.2 / (I.rm κ * I.rm r1.1)
+        * (modeSum I gii gij r1.1 r1.2 r2.1 r2.2 * (I.rm r1.1 * I.rm r2.1) / (((nii + 2 * nij : Nat) : K) * ((nii + 2 * nij : Nat) : K)))
+        * (modeSum I (fun q ν => I.sigii q ν * I.sigii q ν) (fun q ν => I.sigij q ν * I.sigij q ν) r2.1 r2.2 κ' b / (I.rm r2.1 * I.rm κ'))
+      = modeSum I (fun q ν => I.sigii q ν * I.sigii q ν) (fun q ν => I.sigij q ν * I.sigij q ν) κ a r1.1 r1.2
+          * modeSum I gii gij r1.1 r1.2 r2.1 r2.2
+          * modeSum I (fun q ν => I.sigii q ν * I.sigii q ν) (fun q ν => I.sigij q ν * I.sigij q ν) r2.1 r2.2 κ' b
+          / (((nii + 2 * nij : Nat) : K) * ((nii + 2 * nij : Nat) : K) * (I.rm κ * I.rm κ')) := by
+    intro r1 r2
+    have h1 := hrm r1.1; have h2 := hrm r2.1; have h3 := hrm κ; have h4 := hrm κ'
+    field_simp
+  simp only [e, ← Finset.sum_div]
+  rw [ht]
+  have h3 := hrm κ; have h4 := hrm κ'
+  field_simp
+
+/-- … and `V·U·V = V`. -/
+theorem uu_inv_is_inverse_vuv (I : RDIn np ns nii nij K) (hr2 : I.r2 * I.r2 = 2) (h : ModesOrthonormal I)
+    (hN : ((nii + 2 * nij : Nat) : K) ≠ 0) (hrm : ∀ κ, I.rm κ ≠ 0)
+    (gii : Fin nii → Fin (np * 3) → K) (gij : Fin nij → Fin (np * 3) → K)
+    (hgii : ∀ q ν, gii q ν * (I.sigii q ν * I.sigii q ν) * gii q ν = gii q ν)
+    (hgij : ∀ q ν, gij q ν * (I.sigij q ν * I.sigij q ν) * gij q ν = gij q ν)
+    (κ κ' : Fin ns) (a b : Fin 3) :
+    (∑ r1 : Fin ns × Fin 3, ∑ r2 : Fin ns × Fin 3,
+        covInv I gii gij κ a r1.1 r1.2 * cov I r1.1 r1.2 r2.1 r2.2 * covInv I gii gij r2.1 r2.2 κ' b)
+      = covInv I gii gij κ a κ' b := by
+  have ht := modeSum_triple I h hN gii (fun q ν => I.sigii q ν * I.sigii q ν) gii
+    gij (fun q ν => I.sigij q ν * I.sigij q ν) gij κ κ' a b
+  simp only [hgii, hgij] at ht
+  simp only [cov_spectral I hr2, covInv_spectral]
+  have e : ∀ r1 r2 : Fin ns × Fin 3,
+      modeSum I gii gij κ a r1.1 r1.2 * (I.rm κ * I.rm r1.1) / (((nii + 2 * nij : Nat) : K) * ((nii + 2 * nij : Nat) : K))
+        * (modeSum I (fun q ν => I.sigii q ν * I.sigii q ν) (fun q ν => I.sigij q ν * I.sigij q ν) r1.1 r1.2 r2.1 r2.2 / (I.rm r1.1 * I.rm r2.1))
+        * (modeSum I gii gij r2.1 r2.2 κ' b * (I.rm r2.1 * I.rm κ') / (((nii + 2 * nij : Nat) : K) * ((nii + 2 * nij : Nat) : K)))
+      = modeSum I gii gij κ a r1.1 r1.2
+          * modeSum I (fun q ν => I.sigii q ν * I.sigii q ν) (fun q ν => I.sigij q ν * I.sigij q ν) r1.1 r1.2 r2.1 r2.2
+          * modeSum I gii gij r2.1 r2.2 κ' b
+          * (I.rm κ * I.rm κ') / (((nii + 2 * nij : Nat) : K) * ((nii + 2 * nij : Nat) : K) * (((nii + 2 * nij : Nat) : K) * ((nii + 2 * nij : Nat) : K))) := by
+    intro r1 r2
+    have h1 := hrm r1.1; have h2 := hrm r2.1
+    field_simp
+  simp only [e, ← Finset.sum_div, ← Finset.sum_mul]
+  rw [ht]
+  field_simp
+
+theorem covInv_symm (I : RDIn np ns nii nij K) (gii : Fin nii → Fin (np * 3) → K) (gij : Fin nij → Fin (np * 3) → K)
+    (κ κ' : Fin ns) (a b : Fin 3) : covInv I gii gij κ a κ' b = covInv I gii gij κ' b κ a := by
+  rw [covInv_spectral, covInv_spectral]
+  unfold modeSum
+  have : ∀ q ν, (wij I q ν κ a * Cx.conj (wij I q ν κ' b) + Cx.conj (wij I q ν κ a) * wij I q ν κ' b).re
+      = (wij I q ν κ' b * Cx.conj (wij I q ν κ a) + Cx.conj (wij I q ν κ' b) * wij I q ν κ a).re := by
+    intro q ν; simp only [Cx.add_re, Cx.mul_re, Cx.conj_re, Cx.conj_im]; ring
+  simp only [this]
+  congr 2
+  · congr 1
+    · apply Finset.sum_congr rfl; intro q _; apply Finset.sum_congr rfl; intro ν _; ring
+  · ring
+
+/-- rows of primitive atoms produced by d2f, for arbitrary per-mode weights, in spectral form -/
+theorem d2fRow_spectral (I : RDIn np ns nii nij K) (J : D2FIn np ns nii nij K) (p2s : Fin np → Fin ns)
+    (hs2pp : J.s2pp = I.s2pp) (hp2s : ∀ i, I.s2pp (p2s i) = i) (heii : J.eii = I.eii) (heij : J.eij = I.eij)
+    (hpii : ∀ q i j, J.vd q i * Cx.conj (J.vd q (I.s2pp j)) * J.pii q j i = Cx.ofRe (I.cosii q (p2s i) * I.cosii q j))
+    (hpij : ∀ q i j, J.pij q j i = I.phij q (p2s i) * Cx.conj (I.phij q j))
+    (hpnij : ∀ q i j, J.pnij q j i = Cx.conj (J.pij q j i))
+    (vii : Fin nii → Fin (np * 3) → K) (vij : Fin nij → Fin (np * 3) → K)
+    (i : Fin np) (j : Fin ns) (l m : Fin 3) :
+    d2fRow J vii vij i j l m
+      = modeSum I vii vij (p2s i) l j m * (J.ms i (I.s2pp j) / ((nii + 2 * nij : Nat) : K)) := by
+  unfold d2fRow modeSum
+  rw [hs2pp, heii, heij]
+  simp only [sumFin_eq]
+  congr 1
+  rw [add_assoc, ← Finset.sum_add_distrib]
+  congr 1
+  · apply Finset.sum_congr rfl; intro q _
+    unfold d2fEntry
+    rw [dmOf_eC, row_div, row_div]
+    have h := hpii q i j
+    have e1 : J.vd q i * Cx.conj (J.vd q (I.s2pp j))
+          * Cx.ofRe (∑ ν, vii q ν * I.eii q (row i l) ν * I.eii q (row (I.s2pp j) m) ν) * J.pii q j i
+        = Cx.ofRe (I.cosii q (p2s i) * I.cosii q j)
+          * Cx.ofRe (∑ ν, vii q ν * I.eii q (row i l) ν * I.eii q (row (I.s2pp j) m) ν) := by
+      rw [← h]; ring
+    rw [e1]
+    simp only [Cx.mul_re, Cx.ofRe_re, Cx.ofRe_im, mul_zero, sub_zero]
+    rw [Finset.mul_sum]
+    apply Finset.sum_congr rfl; intro ν _
+    rw [hp2s]; ring
+  · apply Finset.sum_congr rfl; intro q _
+    unfold d2fEntry
+    rw [dmOf_conj, hpnij, ← Cx.conj_mul]
+    simp only [Cx.conj_re]
+    rw [← two_mul, dmOf_eq, hpij, Finset.sum_mul, Cx.sum_re, Finset.mul_sum]
+    apply Finset.sum_congr rfl; intro ν _
+    unfold wij
+    rw [hp2s]
+    simp only [Cx.add_re, Cx.mul_re, Cx.mul_im, Cx.conj_re, Cx.conj_im]
+    ring
+
+/-- **`uuinv_eq_covInv`**: the rows of primitive atoms of `uu_inv` as the code computes them are the rows of the closed form -/
+theorem uuinv_eq_covInv [LinearOrder K] (I : RDIn np ns nii nij K) (J : D2FIn np ns nii nij K) (p2s : Fin np → Fin ns)
+    (hs2pp : J.s2pp = I.s2pp) (hp2s : ∀ i, I.s2pp (p2s i) = i) (heii : J.eii = I.eii) (heij : J.eij = I.eij)
+    (hpii : ∀ q i j, J.vd q i * Cx.conj (J.vd q (I.s2pp j)) * J.pii q j i = Cx.ofRe (I.cosii q (p2s i) * I.cosii q j))
+    (hpij : ∀ q i j, J.pij q j i = I.phij q (p2s i) * Cx.conj (I.phij q j))
+    (hpnij : ∀ q i j, J.pnij q j i = Cx.conj (J.pij q j i))
+    (hmass : ∀ i j, J.ms i (I.s2pp j) / ((nii + 2 * nij : Nat) : K)
+        = I.rm (p2s i) * I.rm j / (((nii + 2 * nij : Nat) : K) * ((nii + 2 * nij : Nat) : K)))
+    (cutoff : K) (fii : Fin nii → Fin (np * 3) → K) (fij : Fin nij → Fin (np * 3) → K)
+    (i : Fin np) (j : Fin ns) (l m : Fin 3) :
+    uuInvRow J cutoff fii fij I.sigii I.sigij i j l m
+      = covInv I (fun q ν => a2inv cutoff (fii q ν) (I.sigii q ν)) (fun q ν => a2inv cutoff (fij q ν) (I.sigij q ν)) (p2s i) l j m := by
+  unfold uuInvRow
+  rw [d2fRow_spectral I J p2s hs2pp hp2s heii heij hpii hpij hpnij, covInv_spectral, hmass]
+  ring
+
+/-- the supercell statement with the code's own masks: `σ = maskSigma(cutoff, f, σ_raw)`, `g = a2inv(cutoff, f, σ)` -/
+theorem uu_inv_is_inverse_masked [LinearOrder K] (I : RDIn np ns nii nij K) (hr2 : I.r2 * I.r2 = 2) (h : ModesOrthonormal I)
+    (hN : ((nii + 2 * nij : Nat) : K) ≠ 0) (hrm : ∀ κ, I.rm κ ≠ 0)
+    (cutoff : K) (fii srawii : Fin nii → Fin (np * 3) → K) (fij srawij : Fin nij → Fin (np * 3) → K)
+    (hsii : ∀ q ν, I.sigii q ν = maskSigma cutoff (fii q ν) (srawii q ν))
+    (hsij : ∀ q ν, I.sigij q ν = maskSigma cutoff (fij q ν) (srawij q ν))
+    (hnzii : ∀ q ν, cutoff < fii q ν → srawii q ν ≠ 0) (hnzij : ∀ q ν, cutoff < fij q ν → srawij q ν ≠ 0)
+    (κ κ' : Fin ns) (a b : Fin 3) :
+    let V := covInv I (fun q ν => a2inv cutoff (fii q ν) (I.sigii q ν)) (fun q ν => a2inv cutoff (fij q ν) (I.sigij q ν))
+    (∑ r1 : Fin ns × Fin 3, ∑ r2 : Fin ns × Fin 3, cov I κ a r1.1 r1.2 * V r1.1 r1.2 r2.1 r2.2 * cov I r2.1 r2.2 κ' b) = cov I κ a κ' b
+    ∧ (∑ r1 : Fin ns × Fin 3, ∑ r2 : Fin ns × Fin 3, V κ a r1.1 r1.2 * cov I r1.1 r1.2 r2.1 r2.2 * V r2.1 r2.2 κ' b) = V κ a κ' b := by
+  intro V
+  constructor
+  · apply uu_inv_is_inverse I hr2 h hN hrm
+    · intro q ν; rw [hsii]; exact (mask_algebra cutoff (fii q ν) (srawii q ν) (hnzii q ν)).1
+    · intro q ν; rw [hsij]; exact (mask_algebra cutoff (fij q ν) (srawij q ν) (hnzij q ν)).1
+  · apply uu_inv_is_inverse_vuv I hr2 h hN hrm
+    · intro q ν; rw [hsii]; exact (mask_algebra cutoff (fii q ν) (srawii q ν) (hnzii q ν)).2
+    · intro q ν; rw [hsij]; exact (mask_algebra cutoff (fij q ν) (srawij q ν) (hnzij q ν)).2
+
+end supercell
+
 /-! ### non-vacuity of the hypotheses -/
+
+/-- the certificate is satisfiable: one atom, two cells (`Γ` and the zone-boundary point, both self-conjugate) -/
+def Iex : RDIn 1 2 2 0 ℚ :=
+  { s2pp := fun _ => 0
+    eii := fun _ r ν => if r = ν then 1 else 0
+    cosii := fun q κ => if q = 1 ∧ κ = 1 then -1 else 1
+    eij := fun q => q.elim0
+    phij := fun q => q.elim0
+    sigii := fun _ _ => 1
+    sigij := fun q => q.elim0
+    rm := fun _ => 1
+    r2 := 1 }
+example : ModesOrthonormal Iex where
+  eii := by decide +kernel
+  eij := fun q => q.elim0
+  char := by decide +kernel
+
+
 
 /-- `√2` exists in ℝ (hypothesis `r2·r2 = 2` of `pair_variance`, `cov_eq_canonical`) -/
 example : ∃ r2 : ℝ, r2 * r2 = 2 := ⟨Real.sqrt 2, Real.mul_self_sqrt (by norm_num)⟩
@@ -507,6 +858,14 @@ end PhononModel.C19
 #print axioms PhononModel.C19.q2_canonical_guard_zero
 #print axioms PhononModel.C19.dmOf_mul
 #print axioms PhononModel.C19.uu_inv_is_inverse_partial
+#print axioms PhononModel.C19.W_orth
+#print axioms PhononModel.C19.modeSum_triple
+#print axioms PhononModel.C19.uu_inv_is_inverse
+#print axioms PhononModel.C19.uu_inv_is_inverse_vuv
+#print axioms PhononModel.C19.uu_inv_is_inverse_masked
+#print axioms PhononModel.C19.covInv_symm
+#print axioms PhononModel.C19.d2fRow_spectral
+#print axioms PhononModel.C19.uuinv_eq_covInv
 #print axioms PhononModel.C19.uu_eq_cov
 #print axioms PhononModel.C19.dmOf_conj
 #print axioms PhononModel.C19.dmOf_eC
